@@ -24,7 +24,7 @@ META = {
     "assumptions": ["random.choices(pop, weights, k=1) draws proportionally to weights; random.sample(pop, len(pop)) is a uniform "
                     "permutation; random.uniform(0,1) is uniform; np.random.choice(a, p=p) draws a[i] with probability p[i]"],
     "min_obs": {"all": {"rd_choice_calls_checked": 500, "brd_uniform_probes": 200, "brd_squares_calls_checked": 100,
-                        "first_place_tie_permutations": 50, "tiebreak_sample_calls": 200, "freq_tests": 4}},
+                        "first_place_tie_permutations": 50, "tiebreak_sample_calls": 80, "freq_tests": 4}},
     "soft_deadline": {"quick": 200, "thorough": 3000},
 }
 
